@@ -52,6 +52,7 @@ FIELD_TYPES = {
     ('Parser', 'program_patterns'): TDict(TObj('Element'), TDict(STR, TObj('Element'))),
     ('Match', 'pattern'): STR,     # ghost view of re.Match: the pattern and the string it was obtained from
     ('Match', 'string'): STR,
+    ('Pattern', 'pattern'): STR,   # ghost view of re.Pattern: the text it was compiled from
     ('SupvisorsOptions', 'stereotypes'): TSet(STR),
     ('ProcessCommand', 'minimum_ticks'): INT,
     # declared at base level so that specifications over a ProcessCommand can read it (field of ProcessStartCommand)
@@ -99,7 +100,7 @@ REC_KEYS = {
     'network': REC, 'machine_id': STR, 'fqdn': STR,
 }
 
-EXTERNAL_TYPES = {'Element': TObj('Element'), 'Match': TObj('Match')}
+EXTERNAL_TYPES = {'Element': TObj('Element'), 'Match': TObj('Match'), 'Pattern': TObj('Pattern')}
 
 # mutable class-level attributes that the code mutates or aliases: modelled as ONE heap object (C18, Appendix A7)
 CLASS_HEAP_ATTRS = {
